@@ -72,8 +72,7 @@ class StreamFromGenerator(DefaultPublisherSubscription, Disposable):
             logger().debug('Asyncio task canceled: queue_next_n')
         except Exception as exception:
             logger().error('Stream error', exc_info=True)
-            self._subscriber.on_error(exception)
-            self._cancel_feeders()
+            self._queue.put_nowait((exception, True))  # signalled in order, after the elements already queued
 
     async def _generate_next_n(self, n: int) -> AsyncGenerator[Tuple[Payload, bool], None]:
         is_complete_sent = False
@@ -116,6 +115,11 @@ class StreamFromGenerator(DefaultPublisherSubscription, Disposable):
         try:
             while True:
                 payload, is_complete = await self._queue.get()
+
+                if isinstance(payload, Exception):
+                    self._subscriber.on_error(payload)
+                    self._queue.task_done()
+                    break
 
                 self._send_to_subscriber(payload, is_complete)
 
